@@ -1,6 +1,384 @@
-//! C19 — monitor not written yet.
-use crate::ctx::Ctx;
+//! C19 — generated keys and parameters are well-formed for every randomness stream.
+//!
+//! Each generator is first run dry under a logging RNG; then an all-zero window is placed over
+//! every single draw and over runs of 2-3 consecutive draws (scalar samples, field samples, sign
+//! words alike), plus uniformly random streams. The outputs are checked through their wire form:
+//! decode-time validators, no zero secret scalar / identity element, G1/G2 halves sharing their
+//! discrete logarithms (pairings), Y_i = g^{y_i}, signatures verify, range parameters validate.
+
+use crate::ctx::{guard, hex, Ctx};
+use crate::props::util::*;
+use crate::refs::*;
+use crate::srng::ScriptRng;
+use crate::tracer::{trace, Kind};
+use crate::wire::{dec, enc};
+use bls12_381::{pairing, G1Affine, G1Projective, G2Affine, G2Projective, Scalar};
+use group::Curve;
+use rand_core::RngCore;
+use serde_json::json;
+use zkabacus_crypto::merchant;
+use zkchannels_crypto::{
+    pedersen::PedersenParameters,
+    pointcheval_sanders::KeyPair,
+    proofs::RangeConstraintParameters,
+    Message,
+};
+
+fn seed_of(rng: &mut impl RngCore) -> [u8; 32] {
+    let mut s = [0u8; 32];
+    rng.fill_bytes(&mut s);
+    s
+}
+
+/// checks on a key pair through its wire form; returns a description of the first defect
+fn keypair_defect<const N: usize>(kp: &KeyPair<N>, rng: &mut (impl RngCore + rand_core::CryptoRng)) -> Result<Option<String>, String> {
+    let t = trace(kp)?;
+    // own validators
+    if dec::<KeyPair<N>>(&t.bytes).is_err() {
+        return Ok(Some("generated key pair fails its own decode-time validation".into()));
+    }
+    let pk = PkAtoms::from_trace(&t, "pk")?;
+    let x = sc(&t.fget("sk/x")?).ok_or("sk/x")?;
+    let x1 = g1(&t.fget("sk/x1")?).ok_or("sk/x1")?;
+    let mut ys = vec![];
+    for i in 0..N {
+        ys.push(sc(&t.fget(&format!("sk/ys/[{}]", i))?).ok_or("sk/ys")?);
+    }
+    if x == Scalar::zero() || ys.iter().any(|y| *y == Scalar::zero()) {
+        return Ok(Some("zero secret scalar".into()));
+    }
+    for a in t.atoms.iter().filter(|a| matches!(a.kind, Kind::G1 | Kind::G2)) {
+        let b = t.atom_bytes(a);
+        if (a.kind == Kind::G1 && b == crate::wire::g1_identity_bytes()) || (a.kind == Kind::G2 && b == crate::wire::g2_identity_bytes()) {
+            return Ok(Some(format!("identity element at {}", a.fpath)));
+        }
+    }
+    // discrete logarithms
+    let g = G1Projective::from(pk.g1);
+    let gt = G2Projective::from(pk.g2);
+    if (g * x).to_affine() != x1 {
+        return Ok(Some("X1 != g^x".into()));
+    }
+    if (gt * x).to_affine() != pk.x2 {
+        return Ok(Some("X~ != g~^x".into()));
+    }
+    if pairing(&x1, &pk.g2) != pairing(&pk.g1, &pk.x2) {
+        return Ok(Some("e(X1, g~) != e(g, X~)".into()));
+    }
+    for i in 0..N {
+        if (g * ys[i]).to_affine() != pk.y1s[i] || (gt * ys[i]).to_affine() != pk.y2s[i] {
+            return Ok(Some(format!("Y_{} / Y~_{} not g^y / g~^y", i, i)));
+        }
+        if pairing(&pk.y1s[i], &pk.g2) != pairing(&pk.g1, &pk.y2s[i]) {
+            return Ok(Some(format!("e(Y_{}, g~) != e(g, Y~_{})", i, i)));
+        }
+    }
+    // a signature made with the key verifies (library and reference)
+    let msg = Message::<N>::random(rng);
+    let sig = msg.sign(rng, kp);
+    let m: Vec<Scalar> = msg.iter().copied().collect();
+    if !sig.verify(kp.public_key(), &msg) || !ps_verify_ref(&pk, &sig.sigma1(), &sig.sigma2(), &m) {
+        return Ok(Some("signature made with the generated key does not verify".into()));
+    }
+    Ok(None)
+}
+
+fn windows(ndraws: usize, tier: crate::ctx::Tier, cap: usize, rng: &mut impl RngCore) -> Vec<(usize, usize)> {
+    let mut w = vec![];
+    for d in 0..ndraws {
+        for width in 1..=3usize {
+            if d + width <= ndraws {
+                w.push((d, width));
+            }
+        }
+    }
+    if tier == crate::ctx::Tier::Quick && w.len() > cap {
+        // keep all width-1 windows up to the cap, then a random sample of the wider ones
+        let mut keep: Vec<(usize, usize)> = w.iter().copied().filter(|x| x.1 == 1).take(cap).collect();
+        let rest: Vec<(usize, usize)> = w.iter().copied().filter(|x| x.1 != 1).collect();
+        while keep.len() < cap && !rest.is_empty() {
+            keep.push(rest[(rng.next_u32() as usize) % rest.len()]);
+        }
+        keep.sort();
+        keep.dedup();
+        return keep;
+    }
+    w
+}
+
+fn inject_zeros(r: &mut ScriptRng, dry: &ScriptRng, start: usize, width: usize) {
+    for d in start..start + width {
+        let len = dry.log[d].len;
+        r.inject(d, vec![0u8; len]);
+    }
+}
+
+fn keygen_n<const N: usize>(c: &mut Ctx) {
+    let name = format!("KeyPair<{}>", N);
+    c.case(&name, |c| {
+        let mut rng = c.rng(&name);
+        let seed = seed_of(&mut rng);
+        let mut dry = ScriptRng::new(seed);
+        let _ = KeyPair::<N>::new(&mut dry);
+        let nd = dry.draws();
+        c.note(&format!("draws[KeyPair<{}>]", N), json!({"total": nd, "scalar": dry.draws_of_len(64).len(), "field": dry.draws_of_len(96).len()}));
+        let ws = windows(nd, c.tier, 60, &mut rng);
+        let mut retried = 0;
+        for (start, width) in ws {
+            let mut r = ScriptRng::new(seed);
+            inject_zeros(&mut r, &dry, start, width);
+            c.eval();
+            c.distinct(&format!("{}/zero@{}x{}", name, start, width));
+            match guard(|| KeyPair::<N>::new(&mut r)) {
+                Err(p) => c.violation(&format!("C19 generator-panicked type={} loc={}", name, repo_rel(&p.location)), json!({"window": [start, width], "panic": p.message})),
+                Ok(kp) => {
+                    if r.consumed == 0 {
+                        c.inconclusive("C19: zero window not consumed");
+                        continue;
+                    }
+                    if r.draws() > nd {
+                        retried += 1;
+                    }
+                    match keypair_defect(&kp, &mut rng) {
+                        Ok(None) => c.count("keypairs_well_formed", 1),
+                        Ok(Some(d)) => c.violation(
+                            &format!("C19 malformed-output type={} defect={}", name, d.split(" at ").next().unwrap_or("")),
+                            json!({"window": [start, width], "draw_lengths": dry.log[start..start + width].iter().map(|x| x.len).collect::<Vec<_>>(), "defect": d, "key_head": hex(&enc(&kp)[..48])}),
+                        ),
+                        Err(e) => c.inconclusive(&e),
+                    }
+                }
+            }
+        }
+        c.count(&format!("runs_that_drew_again[{}]", name), retried);
+        if retried == 0 {
+            c.inconclusive(&format!("C19: no zero window made {} draw again (retry loops not reached)", name));
+        }
+        // uniformly random streams
+        for k in 0..c.tier.pick(4, 60) {
+            c.eval();
+            c.distinct(&format!("{}/random{}", name, k));
+            let kp = KeyPair::<N>::new(&mut rng);
+            match keypair_defect(&kp, &mut rng) {
+                Ok(None) => c.count("keypairs_well_formed", 1),
+                Ok(Some(d)) => c.violation(&format!("C19 malformed-output type={} defect={}", name, d), json!({"stream": "random", "defect": d})),
+                Err(e) => c.inconclusive(&e),
+            }
+        }
+        if N == 2 {
+            c.sample(json!({"generator": name, "draws": dry.log.iter().map(|d| d.len).collect::<Vec<_>>()}));
+        }
+    });
+}
+
+fn pedersen_defect(bytes: &[u8], g2: bool) -> Result<Option<String>, String> {
+    let id1 = crate::wire::g1_identity_bytes();
+    let id2 = crate::wire::g2_identity_bytes();
+    let step = if g2 { 96 } else { 48 };
+    // layout: h, LEN, gs...
+    let mut pos = 0;
+    let mut k = 0;
+    while pos + step <= bytes.len() {
+        let chunk = &bytes[pos..pos + step];
+        if (g2 && chunk == id2) || (!g2 && chunk == id1) {
+            return Ok(Some(format!("identity generator #{}", k)));
+        }
+        pos += step;
+        if k == 0 {
+            pos += 8;
+        }
+        k += 1;
+    }
+    Ok(None)
+}
+
+fn pedersen_n<const N: usize>(c: &mut Ctx) {
+    for g2 in [false, true] {
+        let name = format!("PedersenParameters<{},{}>", if g2 { "G2" } else { "G1" }, N);
+        c.case(&name, |c| {
+            let mut rng = c.rng(&name);
+            let seed = seed_of(&mut rng);
+            let gen = |r: &mut ScriptRng| -> Vec<u8> {
+                if g2 {
+                    enc(&PedersenParameters::<G2Projective, N>::new(r))
+                } else {
+                    enc(&PedersenParameters::<G1Projective, N>::new(r))
+                }
+            };
+            let valid = |b: &[u8]| -> bool {
+                if g2 {
+                    dec::<PedersenParameters<G2Projective, N>>(b).is_ok()
+                } else {
+                    dec::<PedersenParameters<G1Projective, N>>(b).is_ok()
+                }
+            };
+            let mut dry = ScriptRng::new(seed);
+            let _ = gen(&mut dry);
+            let nd = dry.draws();
+            let ws = windows(nd, c.tier, 40, &mut rng);
+            let mut retried = 0;
+            for (start, width) in ws {
+                let mut r = ScriptRng::new(seed);
+                inject_zeros(&mut r, &dry, start, width);
+                c.eval();
+                c.distinct(&format!("{}/zero@{}x{}", name, start, width));
+                match guard(|| gen(&mut r)) {
+                    Err(p) => c.violation(&format!("C19 generator-panicked type={} loc={}", name, repo_rel(&p.location)), json!({"window": [start, width], "panic": p.message})),
+                    Ok(b) => {
+                        if r.draws() > nd {
+                            retried += 1;
+                        }
+                        let defect = if !valid(&b) { Some("fails its own decode-time validation".to_string()) } else { pedersen_defect(&b, g2).unwrap_or(None) };
+                        match defect {
+                            None => c.count("pedersen_parameters_well_formed", 1),
+                            Some(d) => c.violation(&format!("C19 malformed-output type={} defect={}", name, d), json!({"window": [start, width], "defect": d})),
+                        }
+                    }
+                }
+            }
+            c.count(&format!("runs_that_drew_again[{}]", name), retried);
+            if retried == 0 {
+                c.inconclusive(&format!("C19: no zero window made {} draw again", name));
+            }
+        });
+    }
+}
+
+fn range_defect(rp: &RangeConstraintParameters) -> Result<Option<String>, String> {
+    let t = trace(rp)?;
+    if dec::<RangeConstraintParameters>(&t.bytes).is_err() {
+        return Ok(Some("fails its own decode-time validation".into()));
+    }
+    if rp.validate().is_err() {
+        return Ok(Some("validate() fails".into()));
+    }
+    let pk = PkAtoms::from_trace(&t, "public_key")?;
+    let mut i = 0u64;
+    loop {
+        let a = t.by_fpath(&format!("digit_signatures/[{}]/sigma1", i));
+        let b = t.by_fpath(&format!("digit_signatures/[{}]/sigma2", i));
+        if a.len() != 1 || b.len() != 1 {
+            break;
+        }
+        let (Some(s1), Some(s2)): (Option<G1Affine>, Option<G1Affine>) = (g1(t.atom_bytes(a[0])), g1(t.atom_bytes(b[0]))) else {
+            return Ok(Some(format!("digit signature {} does not decode", i)));
+        };
+        if !ps_verify_ref(&pk, &s1, &s2, &[Scalar::from(i)]) {
+            return Ok(Some(format!("digit signature {} invalid by reference", i)));
+        }
+        i += 1;
+    }
+    if i != 128 {
+        return Ok(Some(format!("{} digit signatures", i)));
+    }
+    if pairing(&pk.y1s[0], &pk.g2) != pairing(&pk.g1, &pk.y2s[0]) {
+        return Ok(Some("range key halves inconsistent".into()));
+    }
+    let _: Option<G2Affine> = None;
+    Ok(None)
+}
+
+fn range_params(c: &mut Ctx) {
+    // one dry run shared by all cases of this seed
+    let seed = seed_of(&mut c.rng("range/seed"));
+    let mut dry = ScriptRng::new(seed);
+    let _ = RangeConstraintParameters::new(&mut dry);
+    let nd = dry.draws();
+    c.note("draws[RangeConstraintParameters]", json!({"total": nd, "scalar": dry.draws_of_len(64).len(), "field": dry.draws_of_len(96).len()}));
+    let ws = windows(nd, c.tier, 48, &mut c.rng("range/windows"));
+    for (start, width) in ws {
+        let name = format!("RangeConstraintParameters/zero@{}x{}", start, width);
+        c.case(&name, |c| {
+            let mut r = ScriptRng::new(seed);
+            inject_zeros(&mut r, &dry, start, width);
+            c.eval();
+            c.distinct(&name);
+            match guard(|| RangeConstraintParameters::new(&mut r)) {
+                Err(p) => c.violation(&format!("C19 generator-panicked type=RangeConstraintParameters loc={}", repo_rel(&p.location)), json!({"window": [start, width], "panic": p.message})),
+                Ok(rp) => {
+                    if r.draws() > nd {
+                        c.count("runs_that_drew_again[RangeConstraintParameters]", 1);
+                    }
+                    match range_defect(&rp) {
+                        Ok(None) => c.count("range_parameters_well_formed", 1),
+                        Ok(Some(d)) => c.violation(
+                            &format!("C19 malformed-output type=RangeConstraintParameters defect={}", d.trim_end_matches(|ch: char| ch.is_ascii_digit() || ch == ' ')),
+                            json!({"window": [start, width], "draw_lengths": dry.log[start..start + width].iter().map(|x| x.len).collect::<Vec<_>>(), "defect": d}),
+                        ),
+                        Err(e) => c.inconclusive(&e),
+                    }
+                }
+            }
+        });
+    }
+}
+
+fn merchant_config(c: &mut Ctx) {
+    for k in 0..c.tier.pick(4usize, 32) {
+        let name = format!("merchant::Config/{}", k);
+        c.case(&name, |c| {
+            let mut rng = c.rng(&name);
+            let seed = seed_of(&mut rng);
+            let mut dry = ScriptRng::new(seed);
+            let _ = merchant::Config::new(&mut dry);
+            let nd = dry.draws();
+            // zero window somewhere in the key / Pedersen part (the first draws)
+            let start = (rng.next_u32() as usize) % 40.min(nd);
+            let width = 1 + (rng.next_u32() as usize) % 3;
+            let mut r = ScriptRng::new(seed);
+            inject_zeros(&mut r, &dry, start, width.min(nd - start));
+            c.eval();
+            c.distinct(&name);
+            match guard(|| merchant::Config::new(&mut r)) {
+                Err(p) => c.violation(&format!("C19 generator-panicked type=merchant::Config loc={}", repo_rel(&p.location)), json!({"panic": p.message})),
+                Ok(cfg) => {
+                    let kd = keypair_defect(cfg.signing_keypair(), &mut rng);
+                    let rd = range_defect(cfg.range_constraint_parameters());
+                    let pd = pedersen_defect(&enc(cfg.revocation_commitment_parameters()), false);
+                    let pv = dec::<PedersenParameters<G1Projective, 1>>(&enc(cfg.revocation_commitment_parameters())).is_ok();
+                    match (kd, rd, pd) {
+                        (Ok(None), Ok(None), Ok(None)) if pv => {
+                            // the configuration works end to end
+                            match crate::fixtures::from_config(&name, cfg) {
+                                Ok(f) => {
+                                    let f: &'static crate::fixtures::Merchant = Box::leak(Box::new(f));
+                                    let ok = crate::session::Sess::open(f, &mut rng, 9, 9, b"c19").and_then(|mut s| s.pay(&mut rng, crate::session::amount(4).unwrap(), b"c19").map(|r| r.is_ok()));
+                                    if ok == Ok(true) {
+                                        c.count("merchant_configs_well_formed_and_working", 1);
+                                    } else {
+                                        c.violation("C19 malformed-output type=merchant::Config defect=honest payment fails", json!({"window": [start, width], "error": format!("{:?}", ok)}));
+                                    }
+                                }
+                                Err(e) => c.inconclusive(&e),
+                            }
+                        }
+                        (k, r, p) => c.violation(
+                            "C19 malformed-output type=merchant::Config defect=part",
+                            json!({"window": [start, width], "keypair": format!("{:?}", k), "range": format!("{:?}", r), "pedersen": format!("{:?}", p), "pedersen_validates": pv}),
+                        ),
+                    }
+                }
+            }
+        });
+    }
+}
 
 pub fn run(c: &mut Ctx) {
-    c.inconclusive("C19: monitor not written yet");
+    c.note("rule", json!("for KeyPair<N> and PedersenParameters<G,N> (N in 1,2,3,5 quick; +8,13 thorough), RangeConstraintParameters and merchant::Config: dry run to log the draws, then an all-zero window over every single draw and every run of 2-3 consecutive draws (quick: capped sample), plus uniformly random streams; outputs checked through their wire form. Distinct = distinct (generator, window start, width) whose injection was consumed."));
+    keygen_n::<1>(c);
+    keygen_n::<2>(c);
+    keygen_n::<3>(c);
+    keygen_n::<5>(c);
+    pedersen_n::<1>(c);
+    pedersen_n::<2>(c);
+    pedersen_n::<5>(c);
+    if c.tier == crate::ctx::Tier::Thorough {
+        keygen_n::<8>(c);
+        keygen_n::<13>(c);
+        pedersen_n::<3>(c);
+        pedersen_n::<8>(c);
+        pedersen_n::<13>(c);
+    }
+    range_params(c);
+    merchant_config(c);
 }
